@@ -20,7 +20,10 @@ PLATFORM_WRAPS = ["lock_init", "lock_acquire", "try_lock_acquire", "lock_release
                   "clock_toc", "clock_toc_ms", "clock_cmp_now", "clock_sleep_ms"]
 
 RULES = {"WriterAsleepThoughGrantable", "DrainNotBounded", "BlockedWhileDrained", "BlockedWhileRefusing", "WriteRefusedWhileAccepting", "WriteGrantedWhileRefusing",
-         "HangWriterAsleepWhileRefusing", "HangWriterAsleepWhileDrained"}
+         "HangWriterAsleepWhileRefusing", "HangWriterAsleepWhileDrained",
+         # a read that comes back empty although committed bytes are unread: a reader that keeps reading never reaches the
+         # drained state (the bounded-drain half of C03; the same refusal counts for C01)
+         "EmptyNotDrained"}
 # "HangOther" (writer asleep, accepting, readers not drained, or some other deadlock) is NOT a violation by itself: a writer may
 # legitimately wait forever for readers that have stopped reading. The spurious-wake probe turns the illegitimate cases into
 # WriterAsleepThoughGrantable.
